@@ -185,6 +185,9 @@ class Machine:
                     and o["a"] != o["b"] and self.events[o["b"]] is not None and self.events[o["b"]].triggered)
         if k == "interrupt":
             return 1 <= o["a"] < len(self.procs)
+        if k == "cbintr":
+            return (self.exists(o["a"]) and self.kinds[o["a"]] in USER and self.events[o["a"]] is not None
+                    and not self.events[o["a"]].processed and 1 <= o["b"] < len(self.procs))
         if k == "cond":
             s = o["s"]
             return all(self.exists(x) and self.kinds[x] in USER for x in s)
@@ -260,6 +263,15 @@ class Machine:
                             else ScriptError("x", o["a"]))
             except RuntimeError:
                 self.L("E", P, False, V("RuntimeError"))
+            return None
+        if k == "cbintr":
+            # a plain callback (not a process) that interrupts process b when event a is processed
+            def cb(ev, v=o["b"], c=("i", P, n)):
+                try:
+                    self.procs[v].interrupt(c)
+                except RuntimeError:
+                    self.L("E", 0, False, V("RuntimeError"))
+            self.events[o["a"]].callbacks.append(cb)
             return None
         if k == "trigger":
             try:
@@ -638,6 +650,10 @@ class Chooser:
                 return {"k": k, "a": 0, "b": 1 if rng.random() < g.get("spawn_noprobe", 0.3) else 0, "c": 0, "s": []}
             if k == "interrupt" and room and len(m.procs) > 1:
                 return {"k": k, "a": rng.randrange(1, len(m.procs)), "b": 1 if rng.random() < 0.3 else 0, "c": 0, "s": []}
+            if k == "cbintr" and room and len(m.procs) > 1:
+                u = [x for x in self.users() if m.events[x] is not None and not m.events[x].processed]
+                if u:
+                    return {"k": k, "a": rng.choice(u), "b": rng.randrange(1, len(m.procs)), "c": 0, "s": []}
             if k in ("cond", "condnoprobe") and room:
                 u = self.users()
                 n = rng.choice([0, 1, 2, 2, 2, 3, 3])
